@@ -3,7 +3,7 @@ CONSTANTS
   Confs <- ThoroughConfs
   Factors <- GenFactors
   ClampFixed = TRUE
-  MaxFail = 5
+  MaxFail = 4
 CONSTRAINT Bounded
 INVARIANT Emit
 CHECK_DEADLOCK FALSE
